@@ -115,6 +115,8 @@ func (s *walletSessionManager) getSession(authToken string) (*Session, error) {
 		return nil, fmt.Errorf("failed to cast session object: expects Session, gets %T", sess)
 	}
 
+	verifYield()
+
 	err = s.gstore.SetWithExpire(authToken, session, session.sessionExpiry)
 	if err != nil {
 		return nil, fmt.Errorf("set with expire failed: %w", err)
